@@ -119,6 +119,10 @@ def required_entries(prog, non_root):
 def check_doc(res, doc, what, case):
     from bartiq.integrations.latex import routine_to_latex
 
+    # expectations are read off a pristine copy: the SAME document object is rendered four times in a row, and rendering must
+    # neither change it nor depend on what was rendered before
+    pristine = doc.model_copy(deep=True)
+    before = doc.model_dump_json()
     for non_root in (True, False):
         for paged in (False, True):
             res.stats["renderings"] += 1
@@ -134,13 +138,17 @@ def check_doc(res, doc, what, case):
                 return False
             import collections
 
-            need = collections.Counter(sub for _, sub in required_entries(doc.program, non_root))
-            for desc, sub in required_entries(doc.program, non_root):
+            need = collections.Counter(sub for _, sub in required_entries(pristine.program, non_root))
+            for desc, sub in required_entries(pristine.program, non_root):
                 # two subroutines with the same name in different scopes need one entry EACH
                 if text.count(sub) < need[sub]:
                     res.violation("failing-input", f"rendering of {what} has no entry for {desc} (show_non_root_resources={non_root}, paged={paged})",
                                   {"qref": case.qref, "form": what, "show_non_root_resources": non_root, "paged": paged}, {"missing": sub, "text": text[:1500]}, sub)
                     return False
+            if doc.model_dump_json() != before:
+                res.violation("failing-input", f"routine_to_latex modified {what} passed to it (show_non_root_resources={non_root}, paged={paged})",
+                              {"qref": case.qref, "form": what, "history": "renderings of the same object in a row"}, None, "unchanged document")
+                return False
     return True
 
 
